@@ -180,7 +180,9 @@ def normalize_compose(func):
 
 @normalize_token.register((partial, curry))
 def normalize_partial(func):
-    return _normalize_seq_func((func.func, func.args, func.keywords))
+    # functools.partial and toolz.curry objects behave differently when called
+    # with too few arguments: which of the two it is belongs to the token
+    return _normalize_seq_func((type(func), func.func, func.args, func.keywords))
 
 
 @normalize_token.register((types.MethodType, types.MethodWrapperType))
